@@ -228,6 +228,25 @@ def run(ctx):
         else:
             dist["ok"] += 1
             dist["types"][d.type] = dist["types"].get(d.type, 0) + 1
+            # printing and parsing again gives an equal, hash-equal object
+            # (C02_nested_roundtrip on the implementation)
+            try:
+                import qutip
+                qutip.settings.core["auto_tidyup_dims"] = t
+                # the same representation argument as at construction (d.superrep
+                # does not show it for 1-dimensional superoperator spaces)
+                d2 = type(d)(json.loads(json.dumps(d.as_list())), rep=r)
+                same = (d2 == d and hash(d2) == hash(d))
+                why = "parsed %s" % (d2.as_list(),)
+            except Exception as ex:
+                same, why = False, "raised %s: %s" % (type(ex).__name__, ex)
+            finally:
+                qutip.settings.core["auto_tidyup_dims"] = True
+            if not same:
+                ctx.violation("dimensions.as_list", "print-parse-roundtrip",
+                              "Dimensions(d.as_list(), rep=<same rep>) is not equal / hash-equal to d "
+                              "for d = Dimensions(%s, rep=%s): %s" % (l, r, why),
+                              {"dims": l, "rep": r, "auto_tidyup_dims": t, "as_list": d.as_list()})
         if im != mo:
             ctx.violation("corr:dimensions.Dimensions", "construct",
                           "model and implementation disagree on Dimensions(%s, rep=%s)" % (l, r),
@@ -259,6 +278,31 @@ def run(ctx):
             ctx.violation("corr:dimensions.Dimensions", "pair",
                           "model and implementation disagree on ==/hash/@ of a pair",
                           {"a": a, "b": b, "impl": im, "model": mo}, found_input=True)
+    # --- hypotheses of C02_nested_roundtrip on what the constructors build:
+    #     every constructed space is well-formed (wfb) and round-trips in the model
+    HW = HEADER + "From QV Require Import Proofs.C02_nested.\n"
+    wexprs = []
+    for (l, r, t) in cases:
+        wexprs.append(
+            "match %s with Ok d => Some (wfb %s (rep_of %s) (d_to d) && wfb %s (rep_of %s) (d_from d), "
+            "match from_list %s 12 (as_list (d_to d)) %s with Ok s => space_eqb s (d_to d) | Err _ => false end) "
+            "| Err _ => None end" % (dims_expr(l, r, t), cbool(t), REPS[r], cbool(t), REPS[r],
+                                     cbool(t), REPS[r]))
+    wvals = vlib.coq_eval_values("cases_C02w", HW, wexprs, chunk=300)
+    nwf = 0
+    for (l, r, t), v in zip(cases, wvals):
+        pv = vlib.parse_coq_value(v)
+        if pv is None or pv == "None":
+            continue
+        ok_wf, ok_rt = pv[1]
+        nwf += 1
+        if not (ok_wf and ok_rt):
+            ctx.violation("corr:C02:wfb", json.dumps(l)[:60],
+                          "a constructed space is outside the well-formedness predicate of "
+                          "C02_nested_roundtrip (wfb=%s, model round trip=%s) for Dimensions(%s, rep=%s, tidy=%s)"
+                          % (ok_wf, ok_rt, l, r, t), {"dims": l, "rep": r, "auto_tidyup_dims": t},
+                          found_input=False)
+    dist["wfb_checked"] = nwf
     ctx.cov["input_distribution"] = dist
     ctx.sample({"dims": cases[0][0], "rep": cases[0][1], "tidy": cases[0][2]})
     qobj_corr(ctx, rng, good, 300 if ctx.quick else 3000)
